@@ -1,10 +1,19 @@
 #!/bin/bash
-# try_seed.sh <seed-id> <property>... : apply seeded patch to /repo, run the quick checks, revert.
+# try_seed.sh <seed-id> <property>... : apply a seeded patch to a scratch worktree of /repo
+# (or to /repo itself with INPLACE=1), run the checks against it, and remove it again.
 SD=/verif/seeded/$1; shift
-git -C /repo apply "$SD/patch.diff" || { echo "patch does not apply"; exit 2; }
-trap 'git -C /repo checkout -- . ; git -C /repo status --short | head -3' EXIT
+if [ -n "$INPLACE" ]; then
+  R=/repo
+  git -C /repo apply "$SD/patch.diff" || { echo "patch does not apply"; exit 2; }
+  trap 'git -C /repo checkout -- . ; git -C /repo status --short | head -3' EXIT
+else
+  R=$(mktemp -d /tmp/seedrepo.XXXXXX)
+  git -C /repo worktree add -q --detach "$R" HEAD || exit 2
+  trap 'git -C /repo worktree remove --force "$R" >/dev/null 2>&1; rm -rf "$R"' EXIT
+  git -C "$R" apply "$SD/patch.diff" || { echo "patch does not apply"; exit 2; }
+fi
 for p in "$@"; do
   echo "=== $p on $(basename $SD)"
-  VERIF_EVIDENCE_DIR=/tmp/verif_seed_evidence /verif/check $p ${TIER:-quick} 2>&1 | grep -E "^(VIOLATION|KNOWN|UNCONFIRMED|INCONCLUSIVE|  harness=|FAIL)" | head -${LINES_MAX:-12}
+  VERIF_REPO=$R VERIF_EVIDENCE_DIR=/tmp/verif_seed_evidence /verif/check $p ${TIER:-quick} 2>&1 | grep -E "^(VIOLATION|KNOWN|UNCONFIRMED|INCONCLUSIVE|  harness=|FAIL)" | head -${LINES_MAX:-12}
   echo "rc=${PIPESTATUS[0]}"
 done
